@@ -37,7 +37,7 @@ def _patched_logit_group(group):
 
     real = M.loglogit
     M.logit = lambda util, av, i: exp(real(util, None, i))
-    return cm.c05_group(group, only=('logit',))
+    return cm.c05_group(group, only=('logit', 'loglogit'))
 
 
 def body(chk: check.Check):
@@ -49,7 +49,7 @@ def body(chk: check.Check):
                 'every case is evaluated through each applicable model function; distinct = distinct cases')
     samples: dict = {}
     stats = {}
-    numeric_every = 12 if chk.tier == 'quick' else 40
+    numeric_every = 30 if chk.tier == 'quick' else 60
     for name, recs in emitted.items():
         for r in recs:
             chk.distinct.add((r['kind'], cm.struct_key(r), repr(r.get('a')), repr(r.get('av')), repr(r.get('x')), repr(r.get('ts'))))
